@@ -254,8 +254,14 @@ def mon_c03(tr: Trace) -> list[Violation]:
             out.append(Violation("C03/idle_with_running_worker", "idle announced while a worker task is still running", _replay(tr)))
         if pending_retry:
             out.append(Violation("C03/idle_with_pending_retry_timer", "idle announced while a delayed retry is waiting in the timer heap", _replay(tr)))
-        if undelivered:
+        in_mailbox = [t for t in info.get("mailbox", []) if isinstance(t, (T.TickAddEvent, T.TickStepResult))]
+        if undelivered and (in_mailbox or not any(isinstance(x.event, UnhandledEvent) for x in idle_pub)):
             out.append(Violation("C03/idle_with_undelivered_event", "idle announced while events already sent to the run wait in the mailbox/buffer", _replay(tr)))
+        elif undelivered:
+            # only the tick buffer holds work, and the announcement is the UnhandledEvent(idle=True) form: a batch of timers
+            # popped together, the first of which nobody accepts (Lean witness C03_refuted_unhandled_batch)
+            out.append(Violation("C03/idle_unhandled_event_with_buffered_tick", "UnhandledEvent(idle=True) published while another tick "
+                                 "popped in the same batch (a due retry) is still in the tick buffer", _replay(tr)))
     return out
 
 
